@@ -169,7 +169,7 @@ pub const CONTAINERS: [&str; 4] = ["vec", "deque", "array", "ec"];
 /// member (equal genomes must not make individuals compare equal) and real `TestResults` of
 /// `Score` / `Error` values; located by address like the probes
 /// `select_on_ec_inner` on a worker thread with a deadline: the repository's individuals carry
-/// no probe that could bound a runaway selection, so one that does not return within 20 s is
+/// no probe that could bound a runaway selection, so one that has used 20 s of CPU time without returning is
 /// reported as the outcome "hang" (the process exits after its output is written).
 pub static HUNG: std::sync::atomic::AtomicBool = std::sync::atomic::AtomicBool::new(false);
 fn select_on_ec(case: &Value, rng: &mut SmallRng) -> Value {
@@ -181,13 +181,43 @@ fn select_on_ec(case: &Value, rng: &mut SmallRng) -> Value {
     let case = case.clone();
     let mut own = SmallRng::seed_from_u64(rng.random());
     let (tx, rx) = std::sync::mpsc::channel();
+    let (tid_tx, tid_rx) = std::sync::mpsc::channel();
     std::thread::spawn(move || {
+        let tid = std::fs::read_link("/proc/thread-self").ok().and_then(|p| p.file_name().and_then(|n| n.to_str().and_then(|t| t.parse::<u64>().ok())));
+        let _ = tid_tx.send(tid);
         let _ = tx.send(select_on_ec_inner(&case, &mut own));
     });
-    rx.recv_timeout(std::time::Duration::from_secs(20)).unwrap_or_else(|_| {
-        HUNG.store(true, std::sync::atomic::Ordering::SeqCst);
-        json!({"k": "hang", "msg": "selection did not return within 20 s"})
-    })
+    // the deadline counts the CPU TIME the selection itself has used (a runaway selection burns it;
+    // a busy machine does not make a healthy one slow in that measure)
+    let tid = tid_rx.recv().ok().flatten();
+    let started = std::time::Instant::now();
+    loop {
+        match rx.recv_timeout(std::time::Duration::from_secs(1)) {
+            Ok(v) => return v,
+            Err(std::sync::mpsc::RecvTimeoutError::Disconnected) => {
+                return json!({"k": "panic", "msg": "the selection thread ended without a result"});
+            }
+            Err(std::sync::mpsc::RecvTimeoutError::Timeout) => {
+                let used = tid.and_then(thread_cpu_seconds);
+                let over = match used {
+                    Some(sec) => sec >= 20.0,
+                    None => started.elapsed().as_secs() >= 1800, // no /proc: a very generous wall clock
+                };
+                if over {
+                    HUNG.store(true, std::sync::atomic::Ordering::SeqCst);
+                    return json!({"k": "hang", "msg": "selection did not return within 20 s of its own CPU time"});
+                }
+            }
+        }
+    }
+}
+/// CPU seconds (user + system) used so far by thread `tid` of this process
+fn thread_cpu_seconds(tid: u64) -> Option<f64> {
+    let stat = std::fs::read_to_string(format!("/proc/self/task/{tid}/stat")).ok()?;
+    let after = stat.rsplit_once(')')?.1;
+    let f: Vec<&str> = after.split_whitespace().collect();
+    let ticks = f.get(11)?.parse::<u64>().ok()? + f.get(12)?.parse::<u64>().ok()?;
+    Some(ticks as f64 / 100.0)
 }
 fn select_on_ec_inner(case: &Value, rng: &mut SmallRng) -> Value {
     use ec_core::individual::ec::EcIndividual;
